@@ -7,7 +7,7 @@
    source says now.  [transfer] is what the connection does to a frame
    (framing + codec, C01-C03): the theorems ask only that the frames in
    question arrive as sent. *)
-From Coq Require Import List NArith ZArith Bool String.
+From Coq Require Import List NArith ZArith Bool String Lia.
 From P9 Require Import Base.Res Base.Sexp Model.WireTypes Gen.GenWire Gen.GenDispatch
   Model.Pipeline Model.Flow Proofs.PipelineProofs Proofs.FlowProofs.
 Import ListNotations.
@@ -90,6 +90,42 @@ Proof.
   split; vm_compute; reflexivity.
 Qed.
 
+(* 1'/2'. The same two statements with the connection instantiated by the codec
+   model of C01 (encode, decode): the "arrives as sent" premises become the
+   decidable well-formedness of the frames (strings below 2^16 bytes, bytes
+   below 256, field values in range, Dir below 2^16, frame below 2^32). *)
+Theorem C09_request_wire : forall tag msize smsize m args,
+  In m gen_client -> wf_args m args -> 24 <= msize < 2 ^ 31 ->
+  first_guard args (cm_guards m) = None ->
+  request_fits msize m args ->
+  (forall q, frame_sent msize m args = Some q -> Wire.wf_fcall (as_fcall tag q) = true) ->
+  exists c, In c gen_server /\ sc_method c = cm_name m /\
+    request_path (wire_transfer tag) msize smsize m args
+    = Ok (inr (SCall c (clip_args msize smsize (cm_name m) args))).
+Proof. exact request_identity_wire. Qed.
+Print Assumptions C09_request_wire.
+
+Theorem C09_reply_wire : forall tag msize m c args sargs o,
+  In m gen_client -> find_server (cm_req m) = Some c ->
+  result_wf m args sargs o ->
+  (forall r, server_reply c sargs o = Ok r -> msg_size r <= msize /\ Wire.wf_fcall (as_fcall tag r) = true) ->
+  reply_path (wire_transfer tag) msize m c args sargs o = Ok (expected m args o).
+Proof. exact reply_identity_wire. Qed.
+Print Assumptions C09_reply_wire.
+
+(* non-vacuity, through the actual encoder and decoder of the codec model: a
+   Create with DMDIR|0755 and mode 0x12 *)
+Example C09_request_wire_nonvacuous :
+  exists m c q, find_client "Create" = Some m /\
+    frame_sent 8192 m [GInt 7; GStr (str "dir"); GInt 2147484141; GInt 18] = Some q /\
+    Wire.wf_fcall (as_fcall 65534 q) = true /\
+    request_path (wire_transfer 65534) 8192 8192 m [GInt 7; GStr (str "dir"); GInt 2147484141; GInt 18]
+    = Ok (inr (SCall c [GInt 7; GStr (str "dir"); GInt 2147484141; GInt 18])).
+Proof.
+  eexists. eexists. eexists. split; [reflexivity |]. split; [vm_compute; reflexivity |].
+  split; vm_compute; reflexivity.
+Qed.
+
 (* an Rerror passes as the call's error for every method; a reply of any type
    other than the asserted one is refused *)
 Theorem C09_rerror_passes : forall m args ename,
@@ -135,22 +171,50 @@ Proof. exact client_signatures_match. Qed.
 Print Assumptions C09_signatures.
 
 (* 4. Concurrent callers obtain their own results: composition of the tag
-   layers' statements (C05: a reply goes to the call that issued its tag, tags
-   of outstanding calls are distinct; C06: each reply carries the tag of the
-   request its own handler invocation answered) with frames arriving as sent.
-   The hypotheses are the sibling models' theorems, to be instantiated. *)
-Theorem C09_own_result :
-  forall (call : Type) (tag_of : call -> N) (request_of : call -> message) (handler : message -> message)
-         (delivered : call -> message -> Prop)
-         (client_received server_sent server_received : N -> message -> Prop),
-  (forall c r, delivered c r -> client_received (tag_of c) r) ->
-  (forall c c', tag_of c = tag_of c' -> c = c') ->
-  (forall t r, client_received t r -> server_sent t r) ->
-  (forall t r, server_sent t r -> exists q, server_received t q /\ r = handler q) ->
-  (forall t q, server_received t q -> exists c, tag_of c = t /\ q = request_of c) ->
-  forall c r, delivered c r -> r = handler (request_of c).
+   layers' statements over one global history (positions, because tags are
+   reused): C05_own_reply (the reply handed to a call is the first reply frame
+   with its tag after its request), C05_distinct (a tag is re-issued only after
+   a reply with it came back), C06 (every reply frame answers the latest
+   request with its tag, once, with its own handler's message).  The three
+   premises are the sibling models' theorems, to be instantiated. *)
+Theorem C09_own_result : forall (answer : nat -> message) (h : list gev),
+  own_reply_hyp h -> tag_reuse_hyp h -> reply_own_hyp answer h ->
+  forall k c r, nth_error h k = Some (GDel c r) ->
+    exists i t q, (i < k)%nat /\ nth_error h i = Some (GReq c t q) /\ r = answer i.
 Proof. exact own_result. Qed.
 Print Assumptions C09_own_result.
+
+(* non-vacuity: two calls in flight with tags 1 and 2, answered out of order,
+   then a third call re-using tag 1 *)
+Definition ex_q (n : N) : message := (120%N, [VF (FInt 4 n)]).
+Definition ex_r (n : N) : message := (107%N, [VF (FStr [n])]).
+Definition ex_history : list gev :=
+  [GReq 0 1 (ex_q 10); GReq 1 2 (ex_q 11); GRep 2 (ex_r 21); GDel 1 (ex_r 21);
+   GRep 1 (ex_r 20); GDel 0 (ex_r 20); GReq 2 1 (ex_q 12); GRep 1 (ex_r 22); GDel 2 (ex_r 22)].
+Definition ex_answer (i : nat) : message :=
+  match i with 0%nat => ex_r 20 | 1%nat => ex_r 21 | _ => ex_r 22 end.
+
+Ltac pos k H := repeat (destruct k as [| k]; cbn in H; try discriminate H); try (destruct k; discriminate H).
+Ltac nobetween :=
+  unfold no_rep_between, no_req_between, not; intros;
+  match goal with Hc0 : nth_error _ ?k0 = Some _ |- _ => pos k0 Hc0 end; lia.
+
+Example C09_own_result_nonvacuous :
+  own_reply_hyp ex_history /\ tag_reuse_hyp ex_history /\ reply_own_hyp ex_answer ex_history.
+Proof.
+  split; [| split].
+  - intros k c r H. pos k H; inversion H; subst.
+    + exists 1%nat, 2%nat, 2%N, (ex_q 11). repeat split; try lia; try reflexivity. nobetween.
+    + exists 0%nat, 4%nat, 1%N, (ex_q 10). repeat split; try lia; try reflexivity. nobetween.
+    + exists 6%nat, 7%nat, 1%N, (ex_q 12). repeat split; try lia; try reflexivity. nobetween.
+  - intros i i' c c' t q q' Hlt Hi Hi'.
+    pos i Hi; inversion Hi; subst; pos i' Hi'; inversion Hi'; subst; try lia.
+    exists 4%nat, (ex_r 20). split; [lia | reflexivity].
+  - intros j t r H. pos j H; inversion H; subst.
+    + exists 1%nat, 1%nat, (ex_q 11). repeat split; try lia; try reflexivity; nobetween.
+    + exists 0%nat, 0%nat, (ex_q 10). repeat split; try lia; try reflexivity; nobetween.
+    + exists 6%nat, 2%nat, (ex_q 12). repeat split; try lia; try reflexivity; nobetween.
+Qed.
 
 (* 5. All of them complete.  The goroutine structure read off transport.go is
    the repaired one (a dedicated writer goroutine; the owner loop never blocks
